@@ -143,6 +143,8 @@ class Sub:
 
 
 def make(kind, variant):
+    if variant == "duration":
+        variant = "plain"
     from pydsol.core import statistics as S
     from pydsol.core.pubsub import EventListener
     from pydsol.core.interfaces import StatEvents
@@ -174,6 +176,11 @@ def feed_w(t, variant, w, v):
 
 
 def feed_t(t, variant, ts, v):
+    if variant == "duration":
+        # timestamps as Duration quantities (a Duration simulator's clock)
+        from pydsol.core.units import Duration
+        t.register(Duration(float(ts), "s") if ts == ts else ts, v)
+        return
     if variant == "notify":
         from pydsol.core.pubsub import TimedEvent
         from pydsol.core.interfaces import StatEvents
@@ -334,7 +341,11 @@ def check_ts_history(variant, ts, vals, tend, reinit):
         if tend is None:
             continue
         try:
-            t.end_observations(tend)
+            if variant == "duration":
+                from pydsol.core.units import Duration
+                t.end_observations(Duration(float(tend), "s"))
+            else:
+                t.end_observations(tend)
         except Exception as ex:  # noqa
             return bad + [("end_observations-raised", ts, tend,
                            type(ex).__name__)]
@@ -418,7 +429,7 @@ def run(ctx):
                            "history": v[1]}, rank=len(v[1]))
     ctx.part("weighted histories", nodes=nodes, depth=L)
     K = 4 if quick else 5
-    ttasks = [(v, k, re, f) for v in ("plain", "event", "notify")
+    ttasks = [(v, k, re, f) for v in ("plain", "event", "notify", "duration")
               for k in range(K, 0, -1) for re in (False, True)
               for f in range(len(TS))]
     nts = 0
